@@ -14,7 +14,7 @@ func init() {
 		"(R1) buildLogLeaf copies LeafInput / ExtraData verbatim, submits under the index it was given, takes the identity hash from the configured function over that index and the raw entry, and nothing after RawLogEntryFromLeaf (in particular not the certificate parse) can fail the leaf; idHashCertData = SHA-256(cert data), idHashLeafIndex = SHA-256(8-byte little-endian index); the identity-function switch binds exactly these and rejects unknown values; the destination must be a PREORDERED_LOG; "+
 		"(R2) addSequencedLeaves gives entry i of a batch the index Start+i (same i for entry, index and slot), sends {LogId: tree id, Leaves: the built leaves} and stops before the RPC on a leaf error; "+
 		"(R3) the reply switch retries exactly on ResourceExhausted, stops on OK (absent reply ⇒ error) and on every other code, the recorded RPC error is what the caller gets, and the value returned to request a retry is one the pinned backoff.Retry actually retries (decided against backoff.IsRetryable's own code); "+
-		"(R4) fetchTail cannot start the fetcher unless getRoot, Prepare succeeded, the source grew past `begin`, and verifyConsistency(destination size, destination root, source STH) returned nil; it reports the source tree size only when Run and the shared context are error-free; a submitter error cancels that context; verifyConsistency returns nil without a proof only for an empty destination or NoConsistencyCheck, otherwise the result of proof.VerifyConsistency(hasher, dest size, sth size, proof(dest size, sth size), dest root, sth root); "+
+		"(R4) fetchTail cannot start the fetcher unless getRoot, Prepare succeeded, the source grew past `begin`, and verifyConsistency(destination size, destination root, source STH) returned nil; it reports the source tree size only when Run and the shared context are error-free; the submitters run as goroutines (started by fetchTail or by a function only it calls) on that context and on the channel the fetcher callback feeds, a submitter error cancels that context, and the context's Err() verdict is read only after close(batches) and Wait() on the WaitGroup every submitter is counted in (never deferred: a late submitter failure must still be seen); verifyConsistency returns nil without a proof only for an empty destination or NoConsistencyCheck, otherwise the result of proof.VerifyConsistency(hasher, dest size, sth size, proof(dest size, sth size), dest root, sth root); "+
 		"(R5) resume position: continuous ⇒ StartIndex = destination tree size, EndIndex = 0 (clamped to the verified STH by Prepare, C16); begin > StartIndex ⇒ StartIndex = begin; Run threads each pass's result into the next; "+
 		"(R6) AddSequencedLeaves, addSequencedLeaves, buildLogLeaf, runSubmitter, verifyConsistency and fetchTail have no other callers. "+
 		"NOT covered: the destination's state after a run, per-leaf statuses in the AddSequencedLeaves reply, restarts and mastership histories, back-off timing, fetcher cursor discipline (C16), behaviour of the source log and of proof.VerifyConsistency.",
@@ -55,9 +55,17 @@ func runC20(r *Run) {
 	c20Callers(r, "who:buildLogLeaf", c20plc+"buildLogLeaf", c20plc+"addSequencedLeaves")
 	submitterOwner := c20ctl + "fetchTail$*"
 	if ft := r.P.Func(c20ctl + "fetchTail"); ft != nil {
-		if tf, _ := c20Transfer(ft); tf != ft {
+		tf, _ := c20Transfer(ft)
+		if tf != ft {
 			// the transfer part of fetchTail lives in a function of its own (only fetchTail calls it: C20.R4)
 			submitterOwner = FuncName(tf) + "$*"
+		}
+		// … or the goroutines are started by a named function that only the transfer function (or a
+		// literal of it) calls, at one site (c20NewScope admits no other)
+		for _, f := range c20NewScope(r, tf).fam {
+			if f.Parent() == nil && f != tf && f != ft {
+				submitterOwner += " || " + FuncName(f) + "$*"
+			}
 		}
 	}
 	c20Callers(r, "who:runSubmitter", c20ctl+"runSubmitter", submitterOwner)
@@ -89,7 +97,7 @@ func c20Callers(r *Run, key, callee, ownerGlob string) {
 	got := r.CallersOf(callee)
 	n := 0
 	for _, g := range keysOf(got) {
-		if glob(ownerGlob, g) {
+		if anyGlob(ownerGlob, g) {
 			n++
 			r.Pass(key+"@"+g, r.Where(got[g][0]), fmt.Sprintf("%s calls %s (%d sites)", g, callee, len(got[g])))
 		} else {
@@ -657,44 +665,16 @@ func c20FetchTail(r *Run) {
 	}
 	// shared cancellable context
 	ctxTerm := r.D.D(CallArgs(run)[1])
-	r.Check(k+"context", glob("*new:context.Context#*", ctxTerm), r.Where(run), "Run gets "+ctxTerm)
-	r.ExpectStores(tf, k+"context.cancellable", strings.TrimPrefix(ctxTerm, "*"), withCancel(0), 1)
-	var sub *ssa.Function
-	for _, af := range tf.AnonFuncs {
-		if len(CallsTo(af, c20ctl+"runSubmitter")) > 0 {
-			sub = af
-		}
-	}
-	if sub == nil {
-		r.Fail(k+"submitter", r.FnPos(tf), "undecided: no goroutine of "+tf.Name()+" runs runSubmitter")
+	if glob("*new:context.Context#*", ctxTerm) {
+		r.Pass(k+"context", r.Where(run), "Run gets "+ctxTerm)
+		r.ExpectStores(tf, k+"context.cancellable", strings.TrimPrefix(ctxTerm, "*"), withCancel(0), 1)
 	} else {
-		c := CallsTo(sub, c20ctl+"runSubmitter")[0]
-		r.ExpectArg(c, k+"submitter.context", 1, "*^"+strings.TrimPrefix(ctxTerm, "*"))
-		cancels := CallsTo(sub, "dyn(*^new:context.CancelFunc#*)")
-		okCancel := len(cancels) > 0
-		if okCancel {
-			// on a submitter error no path leaves the goroutine without calling cancel
-			s := Sigma{"nil?" + r.D.D(c.Value()): "non"}
-			stop := map[*ssa.BasicBlock]bool{}
-			for _, cc := range cancels {
-				stop[cc.Block()] = true
-			}
-			r.Valuations++
-			reach := r.D.Walk(sub, s, nil, stop)
-			okCancel = len(reachableReturns(sub, reach)) == 0
-		}
-		r.Check(k+"submitter-error-cancels", okCancel, r.Where(c), "a submitter error always reaches cancel() of the shared context")
-		r.ExpectStores(tf, k+"cancel-func", "new:context.CancelFunc#*", withCancel(1), 1)
-		started := false
-		eachInstr(tf, func(in ssa.Instruction) {
-			if g, ok := in.(*ssa.Go); ok {
-				if mc, ok := g.Call.Value.(*ssa.MakeClosure); ok && mc.Fn == ssa.Value(sub) {
-					started = true
-				}
-			}
-		})
-		r.Check(k+"submitters-started", started, r.FnPos(tf), "runSubmitter runs in goroutines started by "+tf.Name())
+		// held in no variable of its own: the WithCancel result itself
+		r.Check(k+"context", anyGlob(withCancel(0), ctxTerm), r.Where(run), "Run gets "+ctxTerm)
 	}
+	// the submitter fan-out (goroutines on the shared context and channel, cancel on error, awaited
+	// before the verdict), whichever function holds the go statement: rules_t5c20.go
+	c20Submitters(r, k, tf, run, parentCtx)
 	// the batch handler forwards the batch it was given
 	var handler *ssa.Function
 	if mc, ok := CallArgs(run)[2].(*ssa.MakeClosure); ok {
